@@ -134,6 +134,21 @@ def post(p):
     kk = z3.Const('k!act', Name)
     active_at = lambda D, k_: z3.And(is_some(EO(), D['D.eop'][k_]), eop_status(D['D.eop'][k_]) == ACTIVE_OP)
     obs.append(('C06.CheckTrialEarlyStoppingState.no_active_op_left', z3.Implies(active_at(D1, kk), active_at(D0, kk))))
+    pythia_called = any(e[0] == 'pythia' for e in evs)
+    if kind == 'return' and not pythia_called:
+        # answered WITHOUT reaching the algorithm: allowed only while another call is computing (operation ACTIVE) or
+        # because the stored answer is recent (the documented recycle period): every operation that is neither ACTIVE
+        # nor recent -- in particular a FAILED or stale one -- is recomputed, so no check is answered from an abandoned
+        # operation forever
+        o0 = D0['D.eop'][ok]
+        op0 = val(EO(), o0)
+        CT = S.schema('google.protobuf.Timestamp')
+        ct = acc(EO(), 'completion_time')(op0)
+        period = z3.Int('early_stop_recycle_period')
+        nows = getattr(run, 'now_terms', [])
+        recent = z3.Or(*[n_ - M.ts_to_dt(acc(CT, 'seconds')(ct), acc(CT, 'nanos')(ct)) < period for n_ in nows]) if nows else z3.BoolVal(False)
+        obs.append(('C06.CheckTrialEarlyStoppingState.reaches_algorithm',
+                    z3.And(is_some(EO(), o0), z3.Or(eop_status(o0) == ACTIVE_OP, recent))))
     if kind == 'raise' and wrote_op:
         # an exception after the operation was (re)activated is acceptable only as a *reported* algorithm failure
         obs.append(('C06.CheckTrialEarlyStoppingState.reported', z3.BoolVal(bool(pythia_raised)) if not _md_failed(run, evs) else z3.BoolVal(True)))
@@ -189,14 +204,15 @@ def refute_native(names):
     """Directed replay for an undischarged `no_active_op_left`: the failing paths are exactly 'the algorithm raised' and
     'the algorithm returned without a decision for this trial'; run both on the real service."""
     out = {}
-    n = 'C06.CheckTrialEarlyStoppingState.no_active_op_left'
-    if n not in names:
+    want = [n for n in ('C06.CheckTrialEarlyStoppingState.no_active_op_left', 'C06.CheckTrialEarlyStoppingState.reaches_algorithm') if n in names]
+    if not want:
         return out
     for label, first in SCENARIOS.items():
         rep, wedged = native_es_scenario(first)
         if wedged:
             rep['case'] = label
-            out[n] = ('undischarged on the paths where %s; directed replay on the real service' % label, rep, True)
+            for n in want:
+                out[n] = ('undischarged / refuted on the paths where %s; directed replay on the real service' % label, rep, True)
             break
     return out
 
